@@ -39,7 +39,9 @@ def setSess (d : DSt) (n : Nat) (x : Sess) : DSt := { d with sess := d.sess.set 
 def render (s : St) : String :=
   let g := s.q.callers.filter (· ∈ s.q.ready)
   let h := s.q.callers.filter (· ∈ s.acquired)
-  s!"q={showNatList s.q.callers} g={showNatList g} h={showNatList h}"
+  -- e: callers still queued although their Lock call returned an error — every error path of the
+  -- model (`cancel`) removes the caller first, so the list is empty in every reachable state
+  s!"q={showNatList s.q.callers} g={showNatList g} h={showNatList h} e=[]"
 
 def flag (cfg : Cfg) (s : St) : String :=
   if s.q.panics > 0 then "\t#F:C14-ready-closed-twice"
@@ -79,12 +81,13 @@ def stepLine (d : DSt) (line : String) : DSt × String :=
     let hold := rest == ["hold"]
     let n := d.sess.length + 1
     let tk := (d.sess.filter (·.key == k)).length + 1
-    let d := { d with sess := d.sess ++ [{ key := k, short := ttl == "short", ticket := tk, held := hold }] }
+    let short := ttl != "long"   -- short | zero | neg | min: the watchdog's timer fires (at once for a TTL ≤ 0)
+    let d := { d with sess := d.sess ++ [{ key := k, short := short, ticket := tk, held := hold }] }
     let d := applyAct d k (.enqueue n)
     if hold then out d k s!"enq {n} held"
     else if n ∈ (getKey d k).q.ready then
       let d := applyAct d k (.acquire n)
-      let d := setSess d n { key := k, short := ttl == "short", ticket := tk, acquired := true }
+      let d := setSess d n { key := k, short := short, ticket := tk, acquired := true }
       out d k s!"enq {n} acq"
     else out d k s!"enq {n} wait"
   | "go" :: ns :: obs =>
@@ -161,12 +164,17 @@ def stepLine (d : DSt) (line : String) : DSt × String :=
         let d := applyAct d k (.ttl n)
         out (settle d k) k s!"expire {n} removed"
       else out d k s!"expire {n} noop"
-  | ["gwttl", t] =>
-    match t.toInt? with
-    | none => (d, "bad-op")
-    | some ttl =>
+  | "gwttl" :: ts =>
+    if ts.isEmpty || ts.any (fun t => t.toInt?.isNone) then (d, "bad-op") else
+    let rs := ts.map (fun t =>
+      let ttl := t.toInt?.getD 0
       let eff := effTTL d.gw ttl
-      (d, s!"gwttl {t} eff={roundEff eff}" ++ (if eff ≤ 0 then "\t#F:C14-ttl-floor" else ""))
+      let dur := effDurNs d.gw ttl
+      -- a timer armed with a duration ≤ 0 fires at once
+      let shown := if dur ≤ 0 then "0" else if dur ≥ 3000000000 then "gt3000" else toString (roundEff (dur / 1000000))
+      (s!"{t}:eff={shown}", if dur ≤ 0 then (if eff ≤ 0 then "C14-ttl-floor" else "C14-ttl-overflow") else ""))
+    let flags := (rs.map (·.2)).filter (· != "") |>.eraseDups
+    (d, "gwttl " ++ " ".intercalate (rs.map (·.1)) ++ (if flags.isEmpty then "" else "\t#F:" ++ ",".intercalate flags))
   | ["gwcancel"] => (d, if d.withoutCancel then "gwcancel kept acq" else "gwcancel removed err")
   | _ => (d, "bad-op")
 
@@ -236,7 +244,8 @@ def parseWake (s : String) : Wake :=
 def run (args : List String) : IO UInt32 := do
   let kv := parseArgs args
   let cfg : Cfg := { wake := parseWake (arg kv "wake"), wakeOnlyIfHead := arg kv "wakeOnlyIfHead" != "no" }
-  let gw : GwCfg := { ttlThresh := ((arg kv "ttlThresh").toInt?).getD 0, ttlFloor := ((arg kv "ttlFloor").toInt?).getD 0 }
+  let gw : GwCfg := { ttlThresh := ((arg kv "ttlThresh").toInt?).getD 0, ttlFloor := ((arg kv "ttlFloor").toInt?).getD 0,
+                      ttlCap := (arg kv "ttlCap").toInt? }
   if arg kv "mode" == "trace" then
     lineLoop tstep { cfg := cfg }
     return 0
